@@ -1287,6 +1287,14 @@ func (broker *Broker) finish(file sts.Polled) {
 	switch {
 	case file.Waiting() || file.Received():
 		log.Debug("Validated:", file.GetName())
+		if cached := broker.Conf.Cache.Get(file.GetName()); cached != nil &&
+			cached.GetHash() != file.GetHash() {
+			// The file changed and was hashed again after this version was
+			// sent; the confirmation is for the old version and must not mark
+			// the new one done
+			log.Debug("Ignoring confirmation of superseded version:", file.GetName())
+			return
+		}
 		// Make marking done and file removal a single transaction so that we
 		// keep the cache in sync with the file system.  Without it, it's
 		// possible (but not likely) that the cache could be written with a
